@@ -100,7 +100,7 @@ theorem combineRows_spec (m : Mach) (d1 d2 : Dict) (v1 v2 : List (List Rat)) (co
 theorem combine_view (m m' : Mach) (s1 s2 : Nat) (x1 x2 : Sim) (h1 : m.sims[s1]? = some x1)
     (h2 : m.sims[s2]? = some x2) (h : combine m s1 s2 = (m', none)) :
     ∃ p rows, combineParams x1.params x2.params = .ok p
-      ∧ combineRows m x1.dict x2.dict (x1.params.unp.map (·.2)) (x2.params.unp.map (·.2))
+      ∧ combineRows m x1.dict x2.dict (x1.params.norm.unp.map (·.2)) (x2.params.norm.unp.map (·.2))
           (product (p.unp.map (·.2))) (x1.dict.map (·.1)) = .ok rows
       ∧ m'.sims.length = m.sims.length + 1
       ∧ (m'.sims[m.sims.length]?).map (·.params) = some p
@@ -113,7 +113,7 @@ theorem combine_view (m m' : Mach) (s1 s2 : Nat) (x1 x2 : Sim) (h1 : m.sims[s1]?
     simp only [hp] at h
     split at h
     · simp at h
-    · cases hr : combineRows m x1.dict x2.dict (x1.params.unp.map (·.2)) (x2.params.unp.map (·.2))
+    · cases hr : combineRows m x1.dict x2.dict (x1.params.norm.unp.map (·.2)) (x2.params.norm.unp.map (·.2))
           (product (p.unp.map (·.2))) (x1.dict.map (·.1)) with
       | error e => simp [hr] at h
       | ok rows =>
